@@ -160,10 +160,12 @@ def main():
     mod = importlib.import_module(prop)
     if args.replay:
         sys.exit(mod.replay_file(args.replay))
-    workdir = os.path.join(ROOT, 'build', prop + '_' + tier)
+    # STV_SCRATCH: development runs against a scratch copy of the repository (STV_REPO) keep their files apart
+    scratch = os.environ.get('STV_SCRATCH', '')
+    workdir = os.path.join(ROOT, 'build', prop + '_' + tier + scratch)
     shutil.rmtree(workdir, ignore_errors=True)
     os.makedirs(workdir, exist_ok=True)
-    evid_path = os.path.join(ROOT, 'evidence', prop + '.json')
+    evid_path = os.path.join(ROOT, 'evidence', prop + '.json') if not scratch else os.path.join(workdir, prop + '.evidence.json')
     os.makedirs(os.path.dirname(evid_path), exist_ok=True)
     try:
         os.remove(evid_path)
@@ -271,7 +273,7 @@ def main():
     out_lines = []
     reported = 0
     if refuted or viol_lines:
-        rep_dir = os.path.join(ROOT, 'replays')
+        rep_dir = os.path.join(ROOT, 'replays') if not os.environ.get('STV_SCRATCH') else os.path.join(ROOT, 'build', 'replays' + os.environ.get('STV_SCRATCH'))
         os.makedirs(rep_dir, exist_ok=True)
         groups = {}
         for r in refuted:
